@@ -52,7 +52,7 @@ m = {
                  "kind_free_text": "TLA+ module checked by TLC; bound to the code by harness/jjconf (trace validation / behaviour replay)"}
                 for k, v in sorted(engines.items())],
     "checks": checks,
-    "notes": "One TLA+ specification suite under spec/ (see DESIGN.md); bin/check <id> builds the harness from /repo's working tree, runs TLC on the model, binds model and code, writes evidence/<id>.json. Exit 2 = tool trouble, never a violation.",
+    "notes": "One TLA+ specification suite under spec/ (DESIGN.md: sections 1-8 design, 9 as built, 10 seeded changes); bin/check <id> builds the harness from /repo's working tree with the hooks on, runs TLC on the model (with negative configs that must fail), binds model and code (TLC-generated behaviours replayed into the real code and/or recorded traces judged by TLC), writes evidence/<id>.json. Exit 2 = tool trouble, never a violation. known-findings.txt lists genuine defects recorded (finding:, suppressed by structural signature only) and repaired (fixed:, four fix: commits in /repo: 5aeeccb C21, 7486fd4 C17, 032bffc C44, 5fb9b72 C38). seeded/ holds 29 confirmed seeded changes with which checks catch them.",
     "not_applicable": na,
 }
 out = os.path.join(VERIF, "MANIFEST.json")
